@@ -579,7 +579,7 @@ class Ldr1(LdrStrBase):
 class Strh(ArmInstruction):
     """Store half word at register + immediate"""
 
-    rd = Operand("rd", ArmRegister, write=True)
+    rd = Operand("rd", ArmRegister, read=True)
     rn = Operand("rn", ArmRegister, read=True)
     imm = Operand("imm", int)
     syntax = Syntax(
